@@ -361,7 +361,44 @@ def r06_6(ctx):
     ctx.decide('R06.6', f.qual, 'finalize refuses to run twice', bool(g) and isinstance(g[0].body[0], ast.Raise), g[0] if g else f.node)
 
 
+def r06_7(ctx):
+    """Chain-rule convention: d/dx_k = sum_i JacInv[i, k] d/dxi_i.  Every subscript of the inverse Jacobian in the
+    derivative-replacement code takes the *derivative direction* as the column index and sums over the row index
+    (slice / space dimensions).  The sites are siblings: a site with the roles exchanged contradicts the others."""
+    f = ctx.prog.func(VF + '.VForm.replace_physical_derivs')
+    sites = []
+    for s in ast.walk(f.node):
+        if isinstance(s, ast.Subscript) and src(s.value) == 'self.JacInv' and isinstance(s.slice, ast.Tuple) and len(s.slice.elts) == 2:
+            r, c = s.slice.elts
+
+            def kind(e):
+                if isinstance(e, ast.Slice) or src(e) in ('self.spacedims',):
+                    return 'range'
+                if isinstance(e, (ast.Name, ast.Constant)):
+                    return 'index'
+                return '?'
+            sites.append((s, kind(r), kind(c)))
+    ctx.floor('R06.7', 'JacInv subscripts in replace_physical_derivs', len(sites), 3)
+    good = [x for x in sites if x[1] == 'range' and x[2] == 'index']
+    bad = [x for x in sites if x[1] == 'index' and x[2] == 'range']
+    for s, rk, ck in sites:
+        st = src(s)
+        if rk == 'range' and ck == 'index':
+            ctx.met('R06.7', f.qual, st, s, 'column = derivative direction, rows summed')
+        elif rk == 'index' and ck == 'range' and good:
+            ctx.violated('R06.7', f.qual, st, s,
+                         'row/column roles exchanged relative to the %d sibling sites (%s): this contracts with JacInv^T, which differs for every '
+                         'geometry whose inverse Jacobian is not symmetric' % (len(good), src(good[0][0])))
+        else:
+            ctx.undecided('R06.7', f.qual, st, s, 'subscript form not classified')
+    gh = ctx.prog.func(VF + '.VForm._geo_hess_trf')
+    t = src(gh.node).replace(' ', '')
+    ok = 'J[a,m]*J[e,i]*J[u,j]' in t and 'hess(self.Geo[m],parametric=True)[e,u]' in t
+    ctx.decide('R06.7', gh.qual, 'geometry Hessian term: -sum hess(G_m)[e,u] J[a,m] J[e,i] J[u,j]', ok or None, gh.node, 'formula (A.12) with the corrected sign')
+
+
 def run(ctx):
+    r06_7(ctx)
     r06_1(ctx)
     r06_2(ctx)
     r06_3(ctx)
